@@ -480,28 +480,25 @@ Definition list_eqb (a b : list Z) : bool := str_eqb a b.
     State: the label being collected and the pending closing quote.
     Comments ([ ... ]) are outside the model: [Err E_Other]. *)
 Fixpoint tok_loop (unmunge : bool) (toks : list (list Z)) (text : option name) (closing : option (list Z))
-  : res (list (option name)) :=
+  : list (res (option name)) :=
   let finish_label (t : name) : name :=
     let t1 := strip t in if unmunge then us_to_blank t1 else t1 in
   match toks with
   | [] => (* EOT *)
       match closing with
-      | Some _ => Err E_Tree                            (* text ended inside quoted label *)
+      | Some _ => [Err E_Tree]                          (* text ended inside quoted label *)
       | None =>
           match text with
-          | Some ((_ :: _) as t) => Ok [Some (finish_label t); None]
-          | _ => Ok [None]
+          | Some ((_ :: _) as t) => [Ok (Some (finish_label t)); Ok None]
+          | _ => [Ok None]
           end
       end
   | tok :: rest =>
       let cont (pre : list (option name)) (text' : option name) (closing' : option (list Z)) :=
-        match tok_loop unmunge rest text' closing' with
-        | Ok l => Ok (pre ++ l)
-        | Err e => Err e
-        end in
+        map Ok pre ++ tok_loop unmunge rest text' closing' in
       match closing with
       | Some q =>
-          if list_eqb tok [c_nl] then Err E_Tree          (* line ended inside quoted label *)
+          if list_eqb tok [c_nl] then [Err E_Tree]        (* line ended inside quoted label *)
           else if list_eqb tok q then cont [text] None None
           else
             let tok' := if list_eqb tok (q ++ q) then q else tok in
@@ -514,7 +511,7 @@ Fixpoint tok_loop (unmunge : bool) (toks : list (list Z)) (text : option name) (
                        end in
             let text' := match text with Some (_ :: _) => None | _ => text end in
             if list_eqb tok [c_nl] then cont pre text' None
-            else if list_eqb tok [c_lbr] then Err E_Other  (* comment: not modelled *)
+            else if list_eqb tok [c_lbr] then map Ok pre ++ [Err E_Other]  (* comment: not modelled *)
             else if list_eqb tok [c_rbr] then cont pre text' None
             else cont (pre ++ [Some tok]) text' None
           else
@@ -531,7 +528,9 @@ Fixpoint tok_loop (unmunge : bool) (toks : list (list Z)) (text : option name) (
       end
   end.
 
-Definition tokenise (unmunge : bool) (text : list Z) : res (list (option name)) :=
+(** the token stream is a generator: an error in it is only raised if the
+    parser gets that far (it stops at the first top-level sentinel) *)
+Definition tokenise (unmunge : bool) (text : list Z) : list (res (option name)) :=
   tok_loop unmunge (lex text LNone []) None None.
 
 (* ------------------------------------------------------------------ TreeBuilder naming *)
@@ -675,10 +674,11 @@ Definition parse_step (st : pstate) (tok : option name) : pstep :=
     | Some _ => PErr E_Tree                   (* already have a name *)
     end.
 
-Fixpoint parse_loop (st : pstate) (toks : list (option name)) : res pnode :=
+Fixpoint parse_loop (st : pstate) (toks : list (res (option name))) : res pnode :=
   match toks with
   | [] => Err E_Other                          (* the token stream always ends with EOT *)
-  | tok :: rest =>
+  | Err e :: _ => Err e                        (* the tokeniser raised *)
+  | Ok tok :: rest =>
       match parse_step st tok with
       | PCont st' => parse_loop st' rest
       | PDone r => Ok r
@@ -693,7 +693,7 @@ Definition pstate0 : pstate :=
 Definition has_char (c : Z) (s : list Z) : bool := existsb (Z.eqb c) s.
 
 (** [make_tree(treestring, underscore_unmunge)] *)
-Definition make_tree_tokens (toks : list (option name)) : res tree :=
+Definition make_tree_tokens (toks : list (res (option name))) : res tree :=
   match parse_loop pstate0 toks with
   | Err e => Err e
   | Ok (t, loaded) => Ok (if loaded then t else set_name root_name t)
@@ -702,10 +702,7 @@ Definition make_tree_tokens (toks : list (option name)) : res tree :=
 Definition make_tree (unmunge : bool) (text : list Z) : res tree :=
   if negb (has_char c_open text) && negb (has_char c_semi text) && (match strip text with [] => false | _ => true end)
   then Err E_Tree                              (* Not a Newick tree *)
-  else match tokenise unmunge text with
-       | Err e => Err e
-       | Ok toks => make_tree_tokens toks
-       end.
+  else make_tree_tokens (tokenise unmunge text).
 
 (* ------------------------------------------------------------------ JSON (rich dict) round trip *)
 
